@@ -64,6 +64,7 @@ def main(argv=None):
         return 1 if out is not None else 0
 
     t0 = time.time()
+    os.environ.setdefault("VF_UNIT_BUDGET_S", "2400" if tier == "quick" else "7200")
     units = mod.units(tier)
     if args.only:
         units = [u for u in units if args.only in u[0]]
